@@ -46,7 +46,11 @@ func Group(services *fun.Iterator[*Service]) *Service {
 					ec.Add(s.Start(ctx))
 				}(services.Value())
 			}
-			wg.Wait(ctx)
+			// the goroutines above only start a member and record
+			// its wait function; they must all have done so before
+			// the queue of waiters is closed, also when the group
+			// is told to stop while they are still in flight.
+			wg.Operation().Wait()
 			ec.Add(waiters.Close())
 
 			// the members run with the context of this service,
